@@ -1,0 +1,106 @@
+//! Ideal KEM with implicit rejection (stands in for ML-KEM).
+//!
+//! dk = 2 random bytes, ek = dk (public image; no secrecy is modelled),
+//! enc(ek) draws 2 random bytes m and returns (ss, E) with E = ek || m and
+//! ss = H("kem" || E); dec(dk, E) returns ss when E was made for this dk and
+//! H("rej" || dk || E) otherwise, as ML-KEM's implicit rejection does.
+
+use cosmian_crypto_core::bytes_ser_de::{Deserializer, Serializable, Serializer};
+use cosmian_crypto_core::{reexport::rand_core::CryptoRngCore, Secret};
+
+use super::hash::{Hasher, Sha3};
+use crate::traits::Kem;
+use crate::{core::SHARED_SECRET_LENGTH, Error};
+
+pub const KEY_LENGTH: usize = 2;
+pub const ENC_LENGTH: usize = 4;
+
+#[derive(Debug, PartialEq, Clone)]
+pub struct ToyEk(pub(crate) [u8; KEY_LENGTH]);
+
+#[derive(Debug, PartialEq, Clone)]
+pub struct ToyDk(pub(crate) [u8; KEY_LENGTH]);
+
+#[derive(Debug, PartialEq, Eq, Clone, Hash)]
+pub struct ToyEnc(pub(crate) [u8; ENC_LENGTH]);
+
+impl ToyDk {
+    pub fn ek(&self) -> ToyEk {
+        ToyEk(self.0)
+    }
+}
+
+macro_rules! fixed_ser {
+    ($t:ident, $len:expr) => {
+        impl Serializable for $t {
+            type Error = Error;
+
+            fn length(&self) -> usize {
+                $len
+            }
+
+            fn write(&self, ser: &mut Serializer) -> Result<usize, Self::Error> {
+                Ok(ser.write_array(&self.0)?)
+            }
+
+            fn read(de: &mut Deserializer) -> Result<Self, Self::Error> {
+                Ok(Self(de.read_array::<{ $len }>()?))
+            }
+        }
+    };
+}
+
+fixed_ser!(ToyEk, KEY_LENGTH);
+fixed_ser!(ToyDk, KEY_LENGTH);
+fixed_ser!(ToyEnc, ENC_LENGTH);
+
+fn session_key(label: &[u8], parts: &[&[u8]]) -> Secret<SHARED_SECRET_LENGTH> {
+    let mut hasher = Sha3::v256();
+    let mut ss = Secret::<SHARED_SECRET_LENGTH>::new();
+    hasher.update(label);
+    for p in parts {
+        hasher.update(p);
+    }
+    hasher.finalize(&mut *ss);
+    ss
+}
+
+pub struct ToyKem;
+
+impl Kem for ToyKem {
+    type EncapsulationKey = ToyEk;
+    type DecapsulationKey = ToyDk;
+    type SessionKey = Secret<SHARED_SECRET_LENGTH>;
+    type Encapsulation = ToyEnc;
+    type Error = Error;
+
+    fn keygen(
+        rng: &mut impl CryptoRngCore,
+    ) -> Result<(Self::DecapsulationKey, Self::EncapsulationKey), Self::Error> {
+        let mut dk = ToyDk([0; KEY_LENGTH]);
+        rng.fill_bytes(&mut dk.0);
+        let ek = dk.ek();
+        Ok((dk, ek))
+    }
+
+    fn enc(
+        ek: &Self::EncapsulationKey,
+        rng: &mut impl CryptoRngCore,
+    ) -> Result<(Self::SessionKey, Self::Encapsulation), Self::Error> {
+        let mut m = [0; ENC_LENGTH - KEY_LENGTH];
+        rng.fill_bytes(&mut m);
+        let enc = ToyEnc([ek.0[0], ek.0[1], m[0], m[1]]);
+        Ok((session_key(b"kem", &[&enc.0]), enc))
+    }
+
+    fn dec(
+        dk: &Self::DecapsulationKey,
+        enc: &Self::Encapsulation,
+    ) -> Result<Self::SessionKey, Self::Error> {
+        if enc.0[..KEY_LENGTH] == dk.0 {
+            Ok(session_key(b"kem", &[&enc.0]))
+        } else {
+            Ok(session_key(b"rej", &[&dk.0, &enc.0]))
+        }
+    }
+}
